@@ -65,7 +65,7 @@ var fresh = []wm.FID{node(50), node(51), node(52)}
 
 func genStep(t *rapid.T) Step {
 	ids := present
-	switch rapid.IntRange(0, 11).Draw(t, "target") {
+	switch rapid.IntRange(0, 23).Draw(t, "target") {
 	case 0:
 		ids = absent
 	case 1, 2:
